@@ -3,13 +3,13 @@ import os, json
 from . import common as C
 from . import par
 
-GRAPHS = ["chain", "diamond", "missingleaf", "badleaf", "binaryleaf", "headeronly"]
+GRAPHS = ["chain", "diamond", "missingleaf", "badleaf", "binaryleaf", "headeronly", "flatchain"]
 PROGS = ["dA_lA", "dA_lB", "dA_dB_lA_lA", "dD_dB_lD_lD", "lA_lA", "lC_dA_lC", "lD_dD_lD_lD"]
-RPROGS = ["lA_rA_lA", "dA_rA_lA_lA", "lC_rC_lC_lC", "dB_rA_lB_lA", "lA_tC_rA_lA", "dA_tB_rA_lA_lB"]        # with refresh (terminology loader only)
+RPROGS = ["lA_rA_lA", "dA_rA_lA_lA", "lC_rC_lC_lC", "dB_rA_lB_lA", "lA_tC_rA_lA", "dA_tB_rA_lA_lB", "lA_tC_rA_lA_lB_lC"]        # with refresh (terminology loader only)
 CACHES = ["empty", "warm", "stale"]
 MC = {"quick": [("chain", "dA_lA", "empty"), ("diamond", "dA_lA", "warm"), ("chain", "dD_dB_lD_lD", "stale"), ("missingleaf", "dD_dB_lD_lD", "empty"),
                 ("badleaf", "lC_dA_lC", "warm"), ("diamond", "lC_dA_lC", "empty"), ("chain", "dA_rA_lA_lA", "empty"), ("missingleaf", "lC_rC_lC_lC", "stale"),
-                ("chain", "dB_rA_lB_lA", "warm"), ("chain", "lA_tC_rA_lA", "warm"), ("diamond", "dA_tB_rA_lA_lB", "empty")],
+                ("chain", "dB_rA_lB_lA", "warm"), ("chain", "lA_tC_rA_lA", "warm"), ("diamond", "dA_tB_rA_lA_lB", "empty"), ("flatchain", "lA_tC_rA_lA_lB_lC", "warm"), ("flatchain", "dA_dB_lA_lA", "empty")],
       "thorough": [(g, p, c) for g in GRAPHS for p in PROGS + RPROGS for c in CACHES]}
 
 
